@@ -1519,6 +1519,7 @@ func runC07(c *Check) {
 	ruleWakeChannelBuffered(c, p, "C07-R11", "DAIncluderLoop")
 	c.MinInstances("C07-R11", 1)
 	ruleSightingWakesIncluder(c, p, "C07-R12")
+	ruleWorkerEndsOnlyStoppedOrReported(c, p, "C07-R13", []string{"DAIncluderLoop"})
 	c.MinInstances("C07-R12", 2)
 }
 
